@@ -122,13 +122,13 @@ fn pick_ep(ctx: &Ctx, profile: Profile) -> usize {
     cands[ctx.draw(cands.len() as u64) as usize]
 }
 
-struct RunSetup {
-    sh: Arc<Shared>,
-    knobs: GenKnobs,
-    is_async: bool,
+pub struct RunSetup {
+    pub sh: Arc<Shared>,
+    pub knobs: GenKnobs,
+    pub is_async: bool,
 }
 
-fn setup(ctx: &Ctx, is_async: bool, knobs: GenKnobs) -> RunSetup {
+pub fn setup(ctx: &Ctx, is_async: bool, knobs: GenKnobs) -> RunSetup {
     let handler = Handler::new(ctx);
     // knob: the registered encodings and their order
     let rt = match ctx.draw(4) {
@@ -173,7 +173,7 @@ fn setup(ctx: &Ctx, is_async: bool, knobs: GenKnobs) -> RunSetup {
     }
 }
 
-fn base_plan(ctx: &Ctx, knobs: &GenKnobs) -> CallPlan {
+pub fn base_plan(ctx: &Ctx, knobs: &GenKnobs) -> CallPlan {
     CallPlan {
         enabled: Vec::new(),
         rate16: 0,
@@ -220,7 +220,7 @@ impl WireEngine {
     }
 }
 
-fn result_of(r: Result<Result<Box<dyn DynVal>, conjure_error::Error>, String>) -> CallResult {
+pub fn result_of(r: Result<Result<Box<dyn DynVal>, conjure_error::Error>, String>) -> CallResult {
     match r {
         Ok(Ok(v)) => CallResult::Ok(v),
         Ok(Err(e)) => CallResult::Err(crate::transport::snap_error(&e)),
